@@ -37,6 +37,10 @@ def _gen_plan(seed, tier):
         for o in ops[first + 1:]:
             if o['op'] == 'set' and o['what'] == 'limits' and o['arg'][0] is None:
                 o['arg'][0] = 10 + seed % 17
+        if plan['solver'] == 'Powell':
+            # (Powell spends ~50 cost calls per iteration, each through up to 100 rounds of the constraint loop)
+            for o in ops:
+                if o['op'] == 'set' and o['what'] == 'limits' and (o['arg'][0] is None or o['arg'][0] > 12): o['arg'][0] = 6 + seed % 7
     return plan
 
 def _run_plan(plan):
